@@ -12,7 +12,7 @@ from __future__ import annotations
 
 import operator
 
-from .world import dec, FUNC_PREDS, CLASS_PREDS, CLASSES
+from .world import dec, FUNC_PREDS, CLASS_PREDS, CLASSES, TYPES
 
 OPS = {"==": operator.eq, "!=": operator.ne, "<": operator.lt, "<=": operator.le, ">": operator.gt,
        ">=": operator.ge}
@@ -55,7 +55,7 @@ def eval_cond(c, env, domains=None) -> bool:
     if k == "cpred":
         return bool(CLASS_PREDS[c[1]][1](*[eval_term(a, env) for a in c[2]]))
     if k == "hastype":
-        return isinstance(eval_term(c[1], env), CLASSES[c[2]])
+        return isinstance(eval_term(c[1], env), TYPES[c[2]])
     if k == "and":
         return all(eval_cond(x, env, domains) for x in c[2])
     if k == "or":
